@@ -17,6 +17,11 @@ Four streams (all randomness from ctx.rng):
             combinations judged by the property's own criterion (ra, dec, peak within 5 reported sigma, one component);
             these run in a forked child that is killed after CASE_TIMEOUT seconds (a tree that leaves the pedestal in
             sends MINPACK into a fit of the whole image);
+  resolved  (part of loop) rms forced / background estimated (noise-free) and both estimated (white noise at S/N 5000) on a
+            pedestal with sources 1 ... 4 beams across, exact tolerances (the background estimate must not eat into a
+            resolved source);
+  pairs     (part of loop) two isolated sources in one image: an oblique source of axis ratio 2.2-2.5 and a compact one in
+            an empty corner of its bounding box, footprints >= 6 beams apart; each judged as an isolated injected Gaussian;
   witnesses deterministic: err_a/err_b (open finding) and err_ra/err_dec (sky angles, checked at |dec| = 84);
   loop      the closed loop itself, kind 'spec': an image rendered INDEPENDENTLY of Aegean's conventions
             (pixel centres -> sky with astropy.wcs in 1-based FITS coordinates; offsets on the sphere with the
@@ -187,6 +192,99 @@ def render(c):
     truth = dict(ra=ra0, dec=dec0, a=c['a'], b=c['b'], pa=c['pa'], peak=c['peak'],
                  int=c['peak'] * c['a'] * c['b'] / (c['beam'][0] * c['beam'][1] * 3600.0 ** 2))
     return img.reshape(ny, nx), h, w, truth
+
+
+def pair_case(ctx, c, record=True):
+    """two injected Gaussians in one image, each isolated (disjoint >= 4 sigma footprints, negligible mutual flux): the
+    main source `c` and `c['second']` (xy, a, b, pa, peak).  Each is judged as an isolated injected Gaussian: exactly one
+    reported component within 0.6 a of it, all noise-free tolerances."""
+    _quiet()
+    c1 = {k: v for k, v in c.items() if k != 'second'}
+    c2 = dict(c1, **c['second'])
+    img1, h, w, t1 = render(c1)
+    img2, _, _, t2 = render(c2)
+    img = img1 + img2
+    try:
+        out = with_timeout(CASE_TIMEOUT, find, ctx, c1, img, h)
+    except Exception as e:
+        if record:
+            ctx.case(c)
+            ctx.fail('spec', dict(c, pretty=pretty(c1) + ' + second'), f"find_sources_in_image raised {type(e).__name__}: {e}",
+                     dict(site='find_sources_in_image', clauses='raises'))
+        return ['raises'], {}
+    allbad, meas = [], {}
+    for name, cc, tt in (('main', c1, t1), ('second', c2, t2)):
+        mine = [s for s in out if sph_offsets(tt['ra'], tt['dec'], s.ra, s.dec)[0] * 3600.0 <= 0.6 * tt['a']]
+        bad, m = judge(cc, tt, w, mine, img)
+        meas[name] = {k: v for k, v in m.items() if k != 'got'}
+        allbad += [name + ':' + b for b in bad]
+    meas['n_total'] = len(out)
+    if len(out) != 2 and not allbad:
+        allbad.append('total-count')
+    if record:
+        ctx.case(dict(c, pretty=pretty(c1) + f" + second xy=({c2['xy'][0]:.2f},{c2['xy'][1]:.2f}) a={c2['a'] / c['scale'] / 3600:.2f}px "
+                      f"b={c2['b'] / c['scale'] / 3600:.2f}px pa={c2['pa']:.1f} peak={c2['peak']:g}", measured=meas),
+                 json.dumps(c, sort_keys=True))
+        ctx.count('two-source')
+        if allbad:
+            ctx.fail('spec', dict(c, pretty=pretty(c1) + ' + second ' + json.dumps(c['second'])),
+                     dict(failed=allbad, measured=meas, truth=dict(main=t1, second=t2), tolerances=TOL,
+                          components=[[float(s.ra), float(s.dec), float(s.peak_flux), float(s.a), float(s.b), float(s.pa), int(s.island)] for s in out]),
+                     dict(site='find_sources_in_image', clause='two-isolated-sources', clauses='+'.join(allbad)))
+    return allbad, meas
+
+
+def pair_cases(rng):
+    """an oblique elongated source (axis ratio 2.2-2.5, along a pixel diagonal) and a compact source in an empty corner of
+    its bounding box, its footprint >= 6 beam widths from the big one's"""
+    out = []
+    for k in range(4):
+        proj = ['SIN', 'TAN', 'ZEA', 'STG'][k]
+        s = rng.choice([5.0, 10.0, 20.0]) / 3600.0
+        beam_px = 3.0
+        b_px = 16.0
+        a_px = b_px * rng.uniform(2.2, 2.5)
+        pa = rng.choice([45.0, -45.0]) + rng.uniform(-3.0, 3.0)
+        cx, cy = 64.0 + rng.uniform(-0.5, 0.5), 64.0 + rng.uniform(-0.5, 0.5)
+        comp_px = beam_px * rng.uniform(1.0, 1.5)
+        # perpendicular to the major axis, at 1.19 (b/2 ... ) : footprints 4 sigma at snr 200 reach 1.19 FWHM/2... use full margins
+        d = 0.6 * 1.19 * b_px + 0.6 * 1.19 * comp_px + 6.0 * beam_px + 8.0
+        sgn = rng.choice([1.0, -1.0])
+        # PA East of North with CDELT1 < 0: the major axis runs along (dx, dy) = (-sin pa, cos pa); its normal is (cos pa, sin pa)
+        nxv, nyv = math.cos(math.radians(pa)), math.sin(math.radians(pa))
+        x2, y2 = cx + sgn * d * nxv, cy + sgn * d * nyv
+        peak = rng.choice([1.0, 3.0])
+        out.append(dict(proj=proj, n=[128, 128], crval=[rng.uniform(0, 360), rng.choice([-35.0, 20.0, 60.0])], crpix=[64.5, 64.5],
+                        scale=s, beam=[beam_px * s, beam_px * s, 0.0], xy=[cx, cy], a=a_px * s * 3600, b=b_px * s * 3600, pa=pa,
+                        peak=peak, docov=False, snr=200.0,
+                        second=dict(xy=[x2, y2], a=comp_px * s * 3600, b=beam_px * s * 3600, pa=rng.uniform(-89, 89),
+                                    peak=peak * rng.choice([1.0, 0.5]))))
+    return out
+
+
+def resolved_option_cases(rng):
+    """noise-free (fe) and almost noise-free (ee, S/N 5000) images on a pedestal with sources 1 ... 5 beams across: the
+    internally estimated background must not eat into a resolved source"""
+    out = []
+    # measured on the clean tree (3 x 8 runs per size): at 4 beams |dpeak| <= 4e-5, |da|,|db| <= 1.6e-4, |dint| <= 2.8e-4
+    # (margin >= 18 x); at 4.5 beams |dint| reaches 1.0e-3 and at 5 beams 2.9e-3 with |dpeak| 5.6e-4 (BANE's 5 x 4-beam box
+    # starts to see the source), so 4 beams is the largest size kept
+    sizes = [1.0, 2.0, 3.0, 3.5, 4.0]
+    for k, size in enumerate(sizes + sizes[1:]):
+        ee = k >= len(sizes)
+        s = 10.0 / 3600.0
+        beam_px = 3.2
+        a_px = beam_px * size
+        b_px = max(beam_px, a_px * rng.uniform(0.7, 1.0))
+        peak = rng.choice([1.0, -1.0, 5.0])
+        c = dict(proj=['SIN', 'TAN', 'ZEA', 'ARC', 'STG'][k % 5], n=[192, 192], crval=[rng.uniform(0, 360), rng.choice([-30.0, 45.0, 70.0])],
+                 crpix=[96.0, 96.0], scale=s, beam=[beam_px * s, beam_px * s, 0.0], xy=[96.0 + rng.uniform(-8, 8), 96.0 + rng.uniform(-8, 8)],
+                 a=a_px * s * 3600, b=b_px * s * 3600, pa=rng.uniform(-89, 89), peak=peak, docov=False, snr=200.0,
+                 opts='ee' if ee else 'fe', pedestal=abs(peak) * rng.choice([0.3, -0.2, 1.0]))
+        if ee:
+            c.update(noise=abs(peak) / 5000.0, noise_kind='white', noise_seed=2000 + k, exact=True)
+        out.append(c)
+    return out
 
 
 def correlated_noise(rs, shape, c, sigma):
@@ -431,7 +529,7 @@ def loop_case(ctx, c, record=True):
             ctx.fail('spec', dict(c, pretty=pretty(c)), f"find_sources_in_image raised {type(e).__name__}: {e}",
                      dict(site='find_sources_in_image', clauses='raises'))
         return ['raises'], {}
-    if c.get('noise'):
+    if c.get('noise') and not c.get('exact'):
         return judge_noisy(ctx, c, truth, w, out, record)
     bad, m = judge(c, truth, w, out, img)
     if record and getattr(ctx, '_c01_capture', None):
@@ -1082,6 +1180,15 @@ def run(ctx):
         bad, _ = loop_case(ctx, c)
         if 'raises' in bad and ctx.failures and 'CaseTimeout' in str(ctx.failures[-1]['detail']):
             stalled.add(c.get('opts'))
+    for c in resolved_option_cases(ctx.rng):
+        if c.get('opts') in stalled:
+            ctx.count('skipped-after-stall:' + c['opts'])
+            continue
+        bad, _ = loop_case(ctx, c)
+        if 'raises' in bad and ctx.failures and 'CaseTimeout' in str(ctx.failures[-1]['detail']):
+            stalled.add(c.get('opts'))
+    for c in pair_cases(ctx.rng):
+        pair_case(ctx, c)
     corr_leaves(ctx)
     corr_residual(ctx)
     corr_convert(ctx)
